@@ -4,7 +4,7 @@ from ..chain import *
 from .. import gen, core, run
 THEOREMS = core.pinned('C07')
 
-def history(r, coin, nblocks, few_addresses=False, many_outputs=False):
+def history(r, coin, nblocks, few_addresses=False, many_outputs=False, wide=False):
     """random spend history. Transactions are generated in dependency order and then placed in an arbitrary block order, so inputs may
     reference outputs of earlier blocks, of earlier txs of the same block, of LATER txs (forward references: they spend nothing that exists
     yet), unknown outpoints, or the same outpoint twice. Returns (blocks, tags)."""
@@ -21,7 +21,7 @@ def history(r, coin, nblocks, few_addresses=False, many_outputs=False):
             return gen.script_zoo(r, r.choice(['opret_small', 'random', 'multisig', 'empty']))[1]
         if k < 6: return gen.script_zoo(r, r.choice(['p2pkh', 'p2sh', 'p2pk33', 'p2pk65', 'p2wpkh', 'p2wsh', 'p2tr', 'witness_other']))[1]
         return gen.script_zoo(r)[1]
-    ntx = nblocks * r.randrange(1, 4)
+    ntx = nblocks * r.randrange(1, 4) if not wide else nblocks * r.randrange(36, 48)      # wide: blocks of 36..47 transactions (forward references and re-created outpoints inside a big block)
     txs = []; pool = []
     for j in range(ntx):
         ins = []
@@ -46,7 +46,7 @@ def history(r, coin, nblocks, few_addresses=False, many_outputs=False):
         t = Tx(ins, outs, widths=wd); txs.append(t); pool += [(t.txid, i) for i in range(nout)]
         if nout > 255: pool += [(t.txid, 256), (t.txid, 0), (t.txid, 1)]
     order = list(range(ntx))
-    if r.random() < 0.5: r.shuffle(order); tags.add('shuffled_order')
+    if wide or r.random() < 0.5: r.shuffle(order); tags.add('shuffled_order')
     blocks = []; prev = b'\x00' * 32; per = [order[i::nblocks] for i in range(nblocks)]
     dup_cb = Tx([(b'\x00' * 32, 0xffffffff, b'\x01\x02', 0xffffffff)], [(50 * 10**8, script() if not few_addresses else P2PKH(keys[0]))]) if r.random() < 0.4 else None
     for h in range(nblocks):
@@ -101,11 +101,13 @@ def make_cases(ck, n, few=False):
     r = ck.rng; cases = []
     for i in range(n):
         coin = gen.ALL_COINS[i % 8]; nb = r.randrange(2, 7)
-        blocks, tags = history(r, coin, nb, few_addresses=few, many_outputs=(i % 6 == 5))
+        blocks, tags = history(r, coin, nb if i % 10 != 7 else 2, few_addresses=few, many_outputs=(i % 6 == 5), wide=(i % 10 == 7))
+        if i % 10 == 7: nb = 2; tags.add('wide_blocks')
         if i % 10 == 4: blocks, tags = refund_history(r, i // 10); nb = len(blocks)
         if i % 10 == 9 and i < 20: blocks, tags = noaddr_history(r, nb)
         c = Case(('b' if few else 'u') + str(i), coin).simple_layout(blocks)
         if i % 3 == 2 and 'refund' not in tags: c.start = r.randrange(0, nb); c.end = r.choice([None, r.randrange(c.start + 1, nb + 1)]); tags.add('range')
+        if i % 4 == 1: c.verbosity = 1 + (i // 4) % 2; tags.add('-v' * c.verbosity if c.verbosity == 1 else '-vv')
         c.meta['tags'] = sorted(tags); cases.append(c)
     return cases
 
@@ -132,7 +134,7 @@ def small_histories(r, limit):
 
 def explore(ck, cb='unspent', few=False):
     r = ck.rng; quick = ck.tier == 'quick'
-    ck.rule = ('random spend histories (fan-in/out, same-block spends, forward references to outputs of later transactions, several inputs on one tx, the null outpoint as first of several inputs, transactions with over-long CompactSize encodings that are spent later, sweeps of all outputs of one transaction by consecutive inputs (address-less output first), unknown outpoints, double references, '
+    ck.rule = ('random spend histories (fan-in/out, same-block spends, forward references to outputs of later transactions, several inputs on one tx, blocks of 36..47 transactions in arbitrary order, the null outpoint as first of several inputs, transactions with over-long CompactSize encodings that are spent later, sweeps of all outputs of one transaction by consecutive inputs (address-less output first), unknown outpoints, double references, '
                'address-less outputs of every kind, ranges without any address-bearing output (header-only dump), spend-to-empty / refund / brand-new-address sequences, zero values, duplicate coinbase txids at different heights, > 255 outputs) x ranges x 8 coins, plus bounded-exhaustive two-block histories over a '
                'fixed outpoint pool; the row set of the dump is compared with the model and with the property\'s definition evaluated over the csvdump rows. '
                'Non-trivial: >= 1 in-range spend of an in-range output; distinct by history.')
